@@ -69,6 +69,17 @@ def models(tier):
     out.append(monitors.ScenarioModel("connection-awaiting-DWA", wd,
                                       [("m", 0, n) for n in ("rq:3:own", "rq:4:own", "rq:9:own", "rq:3:own:missing", "dwa", "dwr")] + [("ans", 0), ("tick", 1)],
                                       MONS, max_socks=1, prelude=[("accept",), ("m", 0, "cer_p0"), ("tick", 3)]))
+    # ... the same with a handler that raises: still 5012 in the second ready sub-state
+    wdr = copy.deepcopy(wd)
+    wdr["apps"] = [{"id": 3, "acct": True, "peers": [0], "behaviour": "raise"}]
+    out.append(monitors.ScenarioModel("connection-awaiting-DWA-handler-raises", wdr,
+                                      [("m", 0, n) for n in ("rq:3:own", "rq:3:own:missing", "rq:9:own", "dwa", "dwr")] + [("tick", 1)],
+                                      MONS, max_socks=1, prelude=[("accept",), ("m", 0, "cer_p0"), ("tick", 3)]))
+    # a peer that advertised only a part of the node's applications in its CER is still served for every application it is configured for
+    for var in ("cer_onlyacct", "cer_onlyauth"):
+        out.append(monitors.ScenarioModel(f"peer-advertised-{var[4:]}", CFG3,
+                                          [("m", 0, n) for n in ("rq:3:own", "rq:4:own", "rq:4:r2", "rq:9:own", "rq:3:own:missing")] + [("ans", 0), ("ans", 1)],
+                                          MONS, max_socks=1, prelude=[("accept",), ("m", 0, var)]))
     # one peer holds two ready connections (it connected twice): requests are served on both, whichever the node regards as the
     # peer's current one, also after either of them has gone
     out.append(monitors.ScenarioModel("one-peer-two-connections", CFG3,
